@@ -239,6 +239,11 @@ pub struct World {
     query_now: bool,
 }
 
+/// Stored hash equals the from-scratch hash and every stored occupancy set matches the squares.
+pub fn hidden_consistent(b: &Board, f: &Full) -> bool {
+    f.hash == b.raw().zobrist_hash() && f.sets_vs_squares().is_none()
+}
+
 pub fn digest_key(k: &PosKey) -> u64 {
     let mut f = crate::rng::Fnv::default();
     f.bytes(&k.sq);
@@ -650,6 +655,14 @@ impl World {
         }
 
         self.check_valid(&last, "chain.last()")?;
+        if !self.on(C02) && !self.on(C05) && !hidden_consistent(&last, &full) {
+            // the stored hash or an occupancy set no longer matches the squares: C02 and C05 report
+            // that; under any other property the object is outside the library's contract from here
+            // on (its statements are about valid positions), so the run stops
+            self.stats.hit("note.run-stopped-at-inconsistent-hidden-state");
+            self.poisoned = true;
+            return Ok(());
+        }
         if !pos_of(&last).plausible() {
             // C02 would have reported it just above; under any other property the board must
             // simply not be used any more
